@@ -54,3 +54,20 @@ class Engine:
             else:
                 vals.append(mx.Sym((nm,), ty))
         return vals
+
+
+def closure_env(fn):
+    """symbolic environment of a closure body: one named Sym per capture (names and types from the debug info)"""
+    import re
+    caps = {}
+    for m in re.finditer(r"debug (\w+) => \(\*\(\(\*_1\)\.(\d+): ([^;]*)\)\);", fn.text):
+        caps[int(m.group(2))] = (m.group(1), m.group(3).strip())
+    for m in re.finditer(r"debug (\w+) => \(\(\*_1\)\.(\d+): ([^;]*)\);", fn.text):
+        caps.setdefault(int(m.group(2)), (m.group(1), m.group(3).strip()))
+    n = max(caps) + 1 if caps else 0
+    sig = re.search(r"\{closure@[^}]*\}", fn.params[0][1]).group(0)
+    fields = []
+    for i in range(n):
+        nm, ty = caps.get(i, ("cap%d" % i, None))
+        fields.append(mx.Sym((nm,), ty))
+    return mx.Agg("closure", sig, None, fields)
